@@ -59,11 +59,14 @@ func c09Init() {
 		"certA-DER": ca.Raw, "certA-PEM": pem.EncodeToMemory(&pem.Block{Type: "CERTIFICATE", Bytes: ca.Raw}),
 		// PEM as tools write it: explanatory text before the armour (openssl pkcs12 "Bag Attributes")
 		"certA-PEM-with-preamble": append([]byte("Bag Attributes\n    friendlyName: verif\nsubject=CN = verif-ca-A\n\n"), pem.EncodeToMemory(&pem.Block{Type: "CERTIFICATE", Bytes: ca.Raw})...),
-		"certB-DER":               cb.Raw, "certC-DER": cc.Raw,
+		// the label older tools write ("X509 CERTIFICATE"; "TRUSTED CERTIFICATE" is another); the library
+		// stores the DER of whatever PEM block it is given
+		"certA-PEM-other-label": pem.EncodeToMemory(&pem.Block{Type: "X509 CERTIFICATE", Bytes: ca.Raw}),
+		"certB-DER":             cb.Raw, "certC-DER": cc.Raw,
 	}
 	c09Types = []c09Type{
 		{"SHA256", signature.CERT_SHA256_GUID, []string{"h1", "h2", "h31", "certA-DER"}},
-		{"X509", signature.CERT_X509_GUID, []string{"certA-DER", "certA-PEM", "certA-PEM-with-preamble", "certB-DER", "certC-DER", "h1"}},
+		{"X509", signature.CERT_X509_GUID, []string{"certA-DER", "certA-PEM", "certA-PEM-with-preamble", "certA-PEM-other-label", "certB-DER", "certC-DER", "h1"}},
 		{"SHA1", signature.CERT_SHA1_GUID, []string{"s20", "h1"}},
 		{"UNKNOWN", util.EFIGUID{Data1: 0xdeadbeef, Data2: 1, Data3: 2, Data4: [8]byte{3, 4, 5, 6, 7, 8, 9, 10}}, []string{"h1"}},
 	}
